@@ -4,8 +4,9 @@
 (* (which optional parts are present where) by a fixed value assignment in *)
 (* which every element of every block carries different values, so that a  *)
 (* value inherited from an earlier block / element is visible.             *)
-(* Families(fam, full, seed) is the set of cases of family `fam`;          *)
-(* full = FALSE: covering subsets (quick tier), TRUE: full products.       *)
+(* Family(fam, full, seed) is the set of cases of family `fam`             *)
+(* (= FamBuild over FamShapes); full = FALSE: covering subsets (quick      *)
+(* tier), TRUE: full products.                                             *)
 (***************************************************************************)
 EXTENDS PbfFormat
 
@@ -98,139 +99,132 @@ InfoEdge    == {[info |-> FALSE, fields |-> {}]} \cup {[info |-> TRUE, fields |-
 T3 == <<1, 0, 2>>
 
 (* -------------------------------- families ------------------------------ *)
-\* two consecutive dense blocks on the same decoder: every (A, B) over the DenseInfo-column / keys_vals lattice
-DensePair(full, seed) ==
-  LET pairs == IF full THEN DenseChoices \X DenseChoices
-               ELSE DenseChoices \X DenseEdgeB       \* every A against every "edge" B (nothing / one column / all but one / all)
-      P == SeedParams(seed)   z == (seed % 2 = 0) IN
-  {Case("densepair", <<1>>, File(DefaultHeader,
-        << Block(1, P, z, FALSE, <<DenseG(1, 1, ab[1], T3)>>), Block(2, P, ~z, FALSE, <<DenseG(2, 1, ab[2], T3)>>) >>)) : ab \in pairs}
-
-\* the same inside one block: two consecutive dense groups (same cached iterators whatever the decoder count)
-DenseGroups(full, seed) ==
-  LET pairs == IF full THEN DenseChoices \X DenseChoices ELSE DenseEdgeB \X DenseEdgeB
-      P == SeedParams(seed + 1) IN
-  {Case("densegroups", IF full THEN <<1>> ELSE <<1, 2>>, File(DefaultHeader,
-        << Block(1, P, TRUE, (seed % 2 = 1), <<DenseG(1, 1, ab[1], T3), DenseG(1, 2, ab[2], <<0, 3>>)>>) >>)) : ab \in pairs}
-
-\* A and B on the same decoder of 2 resp. 3: filler blocks in between
-Spaced(full, seed) ==
-  LET S == IF full THEN DenseEdge ELSE DenseEdgeC
-      F(b) == Block(b, DefaultParams, TRUE, FALSE, <<DenseG(b, 1, [info |-> TRUE, cols |-> ColSet, kv |-> TRUE], <<1, 1>>)>>) IN
-  {Case("spaced2", <<2>>, File(DefaultHeader,
-        << Block(1, DefaultParams, TRUE, FALSE, <<DenseG(1, 1, ab[1], T3)>>), F(2),
-           Block(3, DefaultParams, FALSE, FALSE, <<DenseG(3, 1, ab[2], T3)>>) >>)) : ab \in S \X S}
-  \cup
-  {Case("spaced3", <<3>>, File(DefaultHeader,
-        << Block(1, DefaultParams, FALSE, FALSE, <<DenseG(1, 1, ab[1], T3)>>), F(2), F(3),
-           Block(4, DefaultParams, TRUE, FALSE, <<DenseG(4, 1, ab[2], T3)>>) >>)) : ab \in S \X S}
-
-\* consecutive ways / relations over the Info-field lattice, in one group, in two groups, in two blocks;
-\* the two elements also differ in their other optional parts
+(* A family is a set of small SHAPES (FamShapes) and a builder (FamBuild) from a shape to a case.  TLC enumerates   *)
+(* the shapes (cheap to normalise) and builds one file per shape; it never has to sort a set of whole files.        *)
 WayO(ic, tc, nrefs, loc, ee) == [tc |-> tc, info |-> ic.info, fields |-> ic.fields, nrefs |-> nrefs, loc |-> loc, ee |-> ee]
 RelO(ic, tc, nm, ee)         == [tc |-> tc, info |-> ic.info, fields |-> ic.fields, nm |-> nm, ee |-> ee]
+AllInfo == [info |-> TRUE, fields |-> ColSet]
+NoInfo  == [info |-> FALSE, fields |-> {}]
 InfoPairs(full) == IF full THEN InfoChoices \X InfoChoices
-                   ELSE (InfoEdge \X {[info |-> FALSE, fields |-> {}], [info |-> TRUE, fields |-> {}], [info |-> TRUE, fields |-> ColSet]})
-                        \cup ({[info |-> TRUE, fields |-> ColSet]} \X InfoEdge)
+                   ELSE (InfoEdge \X {NoInfo, [info |-> TRUE, fields |-> {}], AllInfo}) \cup ({AllInfo} \X InfoEdge)
 Layouts == {"group", "groups", "blocks"}
 TwoIn(layout, P, z, mk(_, _, _), a, b) ==
   CASE layout = "group"  -> << Block(1, P, z, FALSE, <<mk(1, 1, <<a, b>>)>>) >>
     [] layout = "groups" -> << Block(1, P, z, TRUE, <<mk(1, 1, <<a>>), mk(1, 2, <<b>>)>>) >>
     [] layout = "blocks" -> << Block(1, P, z, FALSE, <<mk(1, 1, <<a>>)>>), Block(2, P, ~z, FALSE, <<mk(2, 1, <<b>>)>>) >>
-WayPair(full, seed) ==
-  LET P == SeedParams(seed + 2)  z == (seed % 2 = 1) IN
-  {Case("waypair", <<1>>, File(DefaultHeader, TwoIn(l, P, z, WaysG, WayO(ab[1], 2, 3, "both", FALSE), WayO(ab[2], 0, 0, "none", FALSE))))
-      : ab \in InfoPairs(full), l \in Layouts}
-  \cup
-  {Case("waypair", <<1>>, File(DefaultHeader, TwoIn(l, P, z, WaysG, WayO(ab[1], 0, 2, "none", TRUE), WayO(ab[2], 1, 4, "both", FALSE))))
-      : ab \in InfoPairs(FALSE), l \in Layouts}
-RelPair(full, seed) ==
-  LET P == SeedParams(seed + 3)  z == (seed % 2 = 0) IN
-  {Case("relpair", <<1>>, File(DefaultHeader, TwoIn(l, P, z, RelsG, RelO(ab[1], 2, 3, FALSE), RelO(ab[2], 0, 0, FALSE))))
-      : ab \in InfoPairs(full), l \in Layouts}
-  \cup
-  {Case("relpair", <<1>>, File(DefaultHeader, TwoIn(l, P, z, RelsG, RelO(ab[1], 0, 1, TRUE), RelO(ab[2], 1, 4, FALSE))))
-      : ab \in InfoPairs(FALSE), l \in Layouts}
-
-\* bodies: tags / refs / locations / members present or not, empty ways and relations, explicit empty fields
-AllInfo == [info |-> TRUE, fields |-> ColSet]
-NoInfo  == [info |-> FALSE, fields |-> {}]
 WayBodies == {WayO(ic, tc, nr, loc, ee) : ic \in {AllInfo, NoInfo}, tc \in {0, 1, 3}, nr \in {0, 1, 4}, loc \in {"none", "both", "lat", "lon"}, ee \in BOOLEAN}  \* 144
 RelBodies == {RelO(ic, tc, nm, ee) : ic \in {AllInfo, NoInfo}, tc \in {0, 2}, nm \in {0, 1, 3}, ee \in BOOLEAN}   \* 24
-Bodies(full, seed) ==
-  LET P == SeedParams(seed + 4)
-      richW == WayO(AllInfo, 3, 4, "both", FALSE)   poorW == WayO(NoInfo, 0, 0, "none", FALSE)
-      WB1 == {b \in WayBodies : b.info}   WB2 == {b \in WayBodies : ~b.info}
-      wp == IF full THEN (WB1 \X WB2) \cup (WB2 \X WB1) ELSE ({richW} \X WayBodies) \cup (WayBodies \X {poorW}) \cup ({poorW} \X WayBodies)
-      richR == RelO(AllInfo, 2, 3, FALSE)   poorR == RelO(NoInfo, 0, 0, FALSE)
-      rp == IF full THEN RelBodies \X RelBodies ELSE ({richR} \X RelBodies) \cup (RelBodies \X {poorR}) \cup ({poorR} \X RelBodies) IN
-  {Case("waybody", <<1>>, File(DefaultHeader, << Block(1, P, TRUE, FALSE, <<WaysG(1, 1, <<ab[1], ab[2]>>)>>) >>)) : ab \in wp}
-  \cup {Case("relbody", <<1>>, File(DefaultHeader, << Block(1, P, FALSE, FALSE, <<RelsG(1, 1, <<ab[1], ab[2]>>)>>) >>)) : ab \in rp}
-
-\* block parameters: every combination, both blob encodings, both field orders, followed / preceded by a default block
 MixedGroups(b) == << DenseG(b, 1, [info |-> TRUE, cols |-> ColSet, kv |-> TRUE], T3),
                      WaysG(b, 2, <<WayO(AllInfo, 1, 3, "both", FALSE), WayO(AllInfo, 0, 2, "lat", FALSE)>>),
                      RelsG(b, 3, <<RelO(AllInfo, 1, 2, FALSE)>>) >>
-Params(full, seed) ==
-  {Case("params", <<1>>, File(DefaultHeader,
-        IF first THEN << Block(1, p, z, r, MixedGroups(1)), Block(2, DefaultParams, ~z, FALSE, MixedGroups(2)) >>
-                 ELSE << Block(1, DefaultParams, ~z, FALSE, MixedGroups(1)), Block(2, p, z, r, MixedGroups(2)) >>))
-      : p \in ParamSets, z \in BOOLEAN, r \in (IF full THEN BOOLEAN ELSE {seed % 2 = 0}), first \in BOOLEAN}
-
-\* 1-3 blocks x 0-3 groups of every kind, every decoder count
 GroupOf(kind, b, g) ==
   CASE kind = "dense" -> DenseG(b, g, [info |-> TRUE, cols |-> {"version", "user_sid", "visible"}, kv |-> (g % 2 = 1)], <<1, 2>>)
     [] kind = "ways"  -> WaysG(b, g, <<WayO([info |-> TRUE, fields |-> {"timestamp", "uid"}], 1, 2, "none", FALSE), WayO(NoInfo, 0, 0, "none", FALSE)>>)
     [] kind = "rels"  -> RelsG(b, g, <<RelO([info |-> TRUE, fields |-> {"changeset", "visible"}], 0, 2, FALSE)>>)
     [] OTHER          -> EmptyG
 Kinds == {"dense", "ways", "rels", "empty"}
-KindSeqs(maxg) == UNION {[1 .. n -> Kinds] : n \in 0 .. maxg}
-Shapes(full, seed) ==
-  LET k1 == KindSeqs(1)   k2 == KindSeqs(2)   k3 == KindSeqs(3)          \* 5, 21, 85 group sequences
-      P == SeedParams(seed)
-      B(b, s) == Block(b, IF b = 2 THEN P ELSE DefaultParams, (b + seed) % 2 = 0, b = 3, [g \in 1 .. Len(s) |-> GroupOf(s[g], b, g)])
-      all == <<1, 2, 3, 16>>
-      five == {x \in k2 \X k1 \X k2 : Len(x[1]) = 1 /\ x[1][1] \in {"dense", "ways"} /\ Len(x[2]) = 1 /\ Len(x[3]) = 2 /\ x[3][1] # x[3][2]} IN
-  {Case("shapes", all, File(DefaultHeader, << >>))}
-  \cup {Case("shapes", IF full THEN all ELSE <<1, 3>>, File(DefaultHeader, <<B(1, s)>>)) : s \in k3}
-  \cup {Case("shapes", IF full THEN all ELSE <<1, 2>>, File(DefaultHeader, <<B(1, s[1]), B(2, s[2])>>)) : s \in (IF full THEN k2 \X k2 ELSE k1 \X k2)}
-  \cup {Case("shapes", all, File(DefaultHeader, <<B(1, s[1]), B(2, s[2]), B(3, s[3]), B(4, s[1]), B(5, s[3])>>)) : s \in five}
-  \cup (IF full THEN {Case("shapes", all, File(DefaultHeader, <<B(1, s[1]), B(2, s[2]), B(3, s[3])>>)) : s \in k2 \X k1 \X k2} ELSE {})
+KindSeqs(maxg) == UNION {[1 .. n -> Kinds] : n \in 0 .. maxg}          \* 5, 21, 85 group sequences for maxg = 1, 2, 3
 
-\* header block: every subset of its optional fields
-Headers(full, seed) ==
-  LET OptF(b, v) == IF b THEN <<v>> ELSE << >>
-      blocks == << Block(1, DefaultParams, TRUE, FALSE, <<DenseG(1, 1, [info |-> FALSE, cols |-> {}, kv |-> FALSE], <<0>>)>>) >> IN
-  {Case("header", <<1, 2>>, File(
-      [bbox |-> IF f[1] THEN <<-170, 175, 85, -80>> ELSE << >>,
-       req  |-> IF f[2] THEN <<"OsmSchema-V0.6", "DenseNodes", "HistoricalInformation">> ELSE (IF f[3] THEN << >> ELSE <<"DenseNodes">>),
-       opt  |-> IF f[3] THEN <<4, 2>> ELSE (IF f[2] THEN <<5>> ELSE << >>),
-       prog |-> OptF(f[4], 3), src |-> OptF(f[5], IF f[4] THEN 0 ELSE 6),
-       rts  |-> OptF(f[6], IF f[7] THEN 0 ELSE 9), rseq |-> OptF(f[7], IF f[6] THEN 12 ELSE 0), rurl |-> OptF(f[8], 7),
-       zlib |-> z, rev |-> r], blocks))
-     : f \in [1 .. 8 -> BOOLEAN], z \in (IF full THEN BOOLEAN ELSE {seed % 2 = 0}), r \in (IF full THEN BOOLEAN ELSE {seed % 2 = 1})}
+FamShapes(fam, full, seed) ==
+  CASE \* two consecutive dense blocks on the same decoder: (A, B) over the DenseInfo-column / keys_vals lattice;
+       \* quick: every A against every "edge" B (nothing / one column / all but one / all)
+       fam = "densepair"   -> IF full THEN DenseChoices \X DenseChoices ELSE DenseChoices \X DenseEdgeB
+       \* the same inside one block: two consecutive dense groups (same cached iterators whatever the decoder count)
+    [] fam = "densegroups" -> IF full THEN DenseChoices \X DenseChoices ELSE DenseEdgeB \X DenseEdgeB
+       \* A and B on the same decoder of 2 resp. 3: filler blocks in between
+    [] fam = "spaced"      -> LET S == IF full THEN DenseEdge ELSE DenseEdgeC IN {<<n, ab[1], ab[2]>> : n \in {2, 3}, ab \in S \X S}
+       \* consecutive ways / relations over the Info-field lattice, in one group, two groups, two blocks; the two elements
+       \* also differ in their other optional parts (variant 1: rich then poor, variant 2: poor-ish then rich)
+    [] fam \in {"waypair", "relpair"} ->
+         {<<1, ab[1], ab[2], l>> : ab \in InfoPairs(full), l \in Layouts} \cup {<<2, ab[1], ab[2], l>> : ab \in InfoPairs(FALSE), l \in Layouts}
+       \* bodies: tags / refs / locations / members present or not, empty ways and relations, explicit empty fields
+    [] fam = "bodies"      ->
+         LET richW == WayO(AllInfo, 3, 4, "both", FALSE)   poorW == WayO(NoInfo, 0, 0, "none", FALSE)
+             WB1 == {b \in WayBodies : b.info}   WB2 == {b \in WayBodies : ~b.info}
+             wp == IF full THEN (WB1 \X WB2) \cup (WB2 \X WB1) ELSE ({richW} \X WayBodies) \cup (WayBodies \X {poorW}) \cup ({poorW} \X WayBodies)
+             richR == RelO(AllInfo, 2, 3, FALSE)   poorR == RelO(NoInfo, 0, 0, FALSE)
+             rp == IF full THEN RelBodies \X RelBodies ELSE ({richR} \X RelBodies) \cup (RelBodies \X {poorR}) \cup ({poorR} \X RelBodies) IN
+         {<<1, ab[1], ab[2]>> : ab \in wp} \cup {<<2, ab[1], ab[2]>> : ab \in rp}
+       \* block parameters: every combination, both blob encodings, both field orders, followed / preceded by a default block
+    [] fam = "params"      -> {<<p, z, r, first>> : p \in ParamSets, z \in BOOLEAN, r \in (IF full THEN BOOLEAN ELSE {seed % 2 = 0}), first \in BOOLEAN}
+       \* 0-5 blocks x 0-3 groups of every kind (incl. empty groups and blocks), every decoder count
+    [] fam = "shapes"      ->
+         LET k1 == KindSeqs(1)   k2 == KindSeqs(2)   k3 == KindSeqs(3)
+             five == {x \in k2 \X k1 \X k2 : Len(x[1]) = 1 /\ x[1][1] \in {"dense", "ways"} /\ Len(x[2]) = 1 /\ Len(x[3]) = 2 /\ x[3][1] # x[3][2]} IN
+         {<<0>>} \cup {<<1, s>> : s \in k3} \cup {<<2, s[1], s[2]>> : s \in (IF full THEN k2 \X k2 ELSE k1 \X k2)}
+         \cup {<<5, s[1], s[2], s[3]>> : s \in five}
+         \cup (IF full THEN {<<3, s[1], s[2], s[3]>> : s \in k2 \X k1 \X k2} ELSE {})
+       \* header block: every subset of its optional fields
+    [] fam = "header"      -> {<<f, z, r>> : f \in [1 .. 8 -> BOOLEAN], z \in (IF full THEN BOOLEAN ELSE {seed % 2 = 0}), r \in (IF full THEN BOOLEAN ELSE {seed % 2 = 1})}
+       \* a small family on which every Bug variant of PbfFormatCache must violate NoInherit (non-vacuity probes)
+    [] fam = "probe"       -> {<<1, ab[1], ab[2]>> : ab \in DenseEdgeC \X DenseEdgeC} \cup {<<2, k, 0>> : k \in 1 .. 4}
 
-\* a small family on which every Bug variant of PbfFormatCache must violate NoInherit (non-vacuity probes)
-Probe(full, seed) ==
-  {Case("probe", <<1>>, File(DefaultHeader,
-        << Block(1, DefaultParams, TRUE, FALSE, <<DenseG(1, 1, ab[1], T3), DenseG(1, 2, ab[2], <<0, 3>>)>>) >>)) : ab \in DenseEdgeC \X DenseEdgeC}
-  \cup {Case("probe", <<1>>, File(DefaultHeader, TwoIn("group", DefaultParams, TRUE, WaysG, WayO(AllInfo, 2, 3, "both", FALSE), WayO(NoInfo, 0, 0, "none", FALSE)))),
-        Case("probe", <<1>>, File(DefaultHeader, TwoIn("group", DefaultParams, TRUE, RelsG, RelO(AllInfo, 2, 3, FALSE), RelO(NoInfo, 0, 0, FALSE)))),
-        Case("probe", <<1>>, File(DefaultHeader, TwoIn("group", DefaultParams, TRUE, RelsG, RelO(AllInfo, 2, 3, FALSE), RelO(NoInfo, 0, 2, FALSE)))),
-        Case("probe", <<1>>, File(DefaultHeader, << Block(1, ParamList[5], TRUE, FALSE, MixedGroups(1)), Block(2, DefaultParams, TRUE, FALSE, MixedGroups(2)) >>))}
+FamBuild(fam, full, seed, x) ==
+  CASE fam = "densepair" ->
+         LET P == SeedParams(seed)   z == (seed % 2 = 0) IN
+         Case("densepair", <<1>>, File(DefaultHeader,
+              << Block(1, P, z, FALSE, <<DenseG(1, 1, x[1], T3)>>), Block(2, P, ~z, FALSE, <<DenseG(2, 1, x[2], T3)>>) >>))
+    [] fam = "densegroups" ->
+         Case("densegroups", IF full THEN <<1>> ELSE <<1, 2>>, File(DefaultHeader,
+              << Block(1, SeedParams(seed + 1), TRUE, (seed % 2 = 1), <<DenseG(1, 1, x[1], T3), DenseG(1, 2, x[2], <<0, 3>>)>>) >>))
+    [] fam = "spaced" ->
+         LET F(b) == Block(b, DefaultParams, TRUE, FALSE, <<DenseG(b, 1, [info |-> TRUE, cols |-> ColSet, kv |-> TRUE], <<1, 1>>)>>) IN
+         IF x[1] = 2
+         THEN Case("spaced2", <<2>>, File(DefaultHeader,
+                   << Block(1, DefaultParams, TRUE, FALSE, <<DenseG(1, 1, x[2], T3)>>), F(2),
+                      Block(3, DefaultParams, FALSE, FALSE, <<DenseG(3, 1, x[3], T3)>>) >>))
+         ELSE Case("spaced3", <<3>>, File(DefaultHeader,
+                   << Block(1, DefaultParams, FALSE, FALSE, <<DenseG(1, 1, x[2], T3)>>), F(2), F(3),
+                      Block(4, DefaultParams, TRUE, FALSE, <<DenseG(4, 1, x[3], T3)>>) >>))
+    [] fam = "waypair" ->
+         LET P == SeedParams(seed + 2)  z == (seed % 2 = 1) IN
+         Case("waypair", <<1>>, File(DefaultHeader,
+              IF x[1] = 1 THEN TwoIn(x[4], P, z, WaysG, WayO(x[2], 2, 3, "both", FALSE), WayO(x[3], 0, 0, "none", FALSE))
+                          ELSE TwoIn(x[4], P, z, WaysG, WayO(x[2], 0, 2, "none", TRUE), WayO(x[3], 1, 4, "both", FALSE))))
+    [] fam = "relpair" ->
+         LET P == SeedParams(seed + 3)  z == (seed % 2 = 0) IN
+         Case("relpair", <<1>>, File(DefaultHeader,
+              IF x[1] = 1 THEN TwoIn(x[4], P, z, RelsG, RelO(x[2], 2, 3, FALSE), RelO(x[3], 0, 0, FALSE))
+                          ELSE TwoIn(x[4], P, z, RelsG, RelO(x[2], 0, 1, TRUE), RelO(x[3], 1, 4, FALSE))))
+    [] fam = "bodies" ->
+         LET P == SeedParams(seed + 4) IN
+         IF x[1] = 1 THEN Case("waybody", <<1>>, File(DefaultHeader, << Block(1, P, TRUE, FALSE, <<WaysG(1, 1, <<x[2], x[3]>>)>>) >>))
+                     ELSE Case("relbody", <<1>>, File(DefaultHeader, << Block(1, P, FALSE, FALSE, <<RelsG(1, 1, <<x[2], x[3]>>)>>) >>))
+    [] fam = "params" ->
+         LET p == x[1]  z == x[2]  r == x[3] IN
+         Case("params", <<1>>, File(DefaultHeader,
+              IF x[4] THEN << Block(1, p, z, r, MixedGroups(1)), Block(2, DefaultParams, ~z, FALSE, MixedGroups(2)) >>
+                      ELSE << Block(1, DefaultParams, ~z, FALSE, MixedGroups(1)), Block(2, p, z, r, MixedGroups(2)) >>))
+    [] fam = "shapes" ->
+         LET B(b, s) == Block(b, IF b = 2 THEN SeedParams(seed) ELSE DefaultParams, (b + seed) % 2 = 0, b = 3, [g \in 1 .. Len(s) |-> GroupOf(s[g], b, g)])
+             all == <<1, 2, 3, 16>> IN
+         (CASE x[1] = 0 -> Case("shapes", all, File(DefaultHeader, << >>))
+           [] x[1] = 1 -> Case("shapes", IF full THEN all ELSE <<1, 3>>, File(DefaultHeader, <<B(1, x[2])>>))
+           [] x[1] = 2 -> Case("shapes", IF full THEN all ELSE <<1, 2>>, File(DefaultHeader, <<B(1, x[2]), B(2, x[3])>>))
+           [] x[1] = 5 -> Case("shapes", all, File(DefaultHeader, <<B(1, x[2]), B(2, x[3]), B(3, x[4]), B(4, x[2]), B(5, x[4])>>))
+           [] x[1] = 3 -> Case("shapes", all, File(DefaultHeader, <<B(1, x[2]), B(2, x[3]), B(3, x[4])>>)))
+    [] fam = "header" ->
+         LET f == x[1]   OptF(b, v) == IF b THEN <<v>> ELSE << >> IN
+         Case("header", <<1, 2>>, File(
+            [bbox |-> IF f[1] THEN <<-170, 175, 85, -80>> ELSE << >>,
+             req  |-> IF f[2] THEN <<"OsmSchema-V0.6", "DenseNodes", "HistoricalInformation">> ELSE (IF f[3] THEN << >> ELSE <<"DenseNodes">>),
+             opt  |-> IF f[3] THEN <<4, 2>> ELSE (IF f[2] THEN <<5>> ELSE << >>),
+             prog |-> OptF(f[4], 3), src |-> OptF(f[5], IF f[4] THEN 0 ELSE 6),
+             rts  |-> OptF(f[6], IF f[7] THEN 0 ELSE 9), rseq |-> OptF(f[7], IF f[6] THEN 12 ELSE 0), rurl |-> OptF(f[8], 7),
+             zlib |-> x[2], rev |-> x[3]],
+            << Block(1, DefaultParams, TRUE, FALSE, <<DenseG(1, 1, [info |-> FALSE, cols |-> {}, kv |-> FALSE], <<0>>)>>) >>))
+    [] fam = "probe" ->
+         IF x[1] = 1
+         THEN Case("probe", <<1>>, File(DefaultHeader,
+                   << Block(1, DefaultParams, TRUE, FALSE, <<DenseG(1, 1, x[2], T3), DenseG(1, 2, x[3], <<0, 3>>)>>) >>))
+         ELSE Case("probe", <<1>>, File(DefaultHeader,
+                   CASE x[2] = 1 -> TwoIn("group", DefaultParams, TRUE, WaysG, WayO(AllInfo, 2, 3, "both", FALSE), WayO(NoInfo, 0, 0, "none", FALSE))
+                     [] x[2] = 2 -> TwoIn("group", DefaultParams, TRUE, RelsG, RelO(AllInfo, 2, 3, FALSE), RelO(NoInfo, 0, 0, FALSE))
+                     [] x[2] = 3 -> TwoIn("group", DefaultParams, TRUE, RelsG, RelO(AllInfo, 2, 3, FALSE), RelO(NoInfo, 0, 2, FALSE))
+                     [] x[2] = 4 -> << Block(1, ParamList[5], TRUE, FALSE, MixedGroups(1)), Block(2, DefaultParams, TRUE, FALSE, MixedGroups(2)) >>))
 
 FamilyNames == {"densepair", "densegroups", "spaced", "waypair", "relpair", "bodies", "params", "shapes", "header"}
-Family(fam, full, seed) ==
-  CASE fam = "densepair"   -> DensePair(full, seed)
-    [] fam = "densegroups" -> DenseGroups(full, seed)
-    [] fam = "spaced"      -> Spaced(full, seed)
-    [] fam = "waypair"     -> WayPair(full, seed)
-    [] fam = "relpair"     -> RelPair(full, seed)
-    [] fam = "bodies"      -> Bodies(full, seed)
-    [] fam = "params"      -> Params(full, seed)
-    [] fam = "shapes"      -> Shapes(full, seed)
-    [] fam = "header"      -> Headers(full, seed)
-    [] fam = "probe"       -> Probe(full, seed)
+Family(fam, full, seed) == {FamBuild(fam, full, seed, x) : x \in FamShapes(fam, full, seed)}
 
 (* --------------------------- C08: filter cases -------------------------- *)
 \* files whose consecutive elements differ in the optional parts they carry; <= 6 elements for the full subset lattice
